@@ -26,7 +26,7 @@ LEVEL_NOTE = "trusted: reference ledger, generator's signing, VerifyScript itsel
 
 
 def runs(tier, seed):
-    n = 30 if tier == "quick" else 600
+    n = 30 if tier == "quick" else 320
     return [Run("mempoolsim", cases=n, params={"class": "consistency", "mon": "consistent"}, timeout=3000 if tier == "quick" else 14000)]
 
 
